@@ -430,11 +430,24 @@ def rule_mode_pair(facts):
             ok = (f["name"] == target and margs[-1:] == ["private::" + mode] and bool(same_self)
                   and any(x[:2] == ("arg", 1) for x in a0) and any(x[:2] == ("arg", 2) for x in a1))
             why = "calls %s::<%s> on %s" % (f["name"], ",".join(margs), fmt_roots(a0))
+            gen = [x for x in facts.bodies if x.get("impl_path") == b.get("impl_path") and x["name"] == target and x["kind"] != "Closure"]
+            gen_dispatch = None      # receiver of a `Mode::invoke*` in the generic body, if it is a pure mode dispatch
+            if len(gen) == 1:
+                gcs = _nontrivial_calls(gen[0])
+                if len(gcs) == 1 and gcs[0][2] is not None and gcs[0][2].get("trait") == "private::Mode" and gcs[0][2]["name"].startswith("invoke"):
+                    dp = mirq.direct_place(gen[0], gcs[0][1]["args"][0]["op"])
+                    gen_dispatch = "self" if (dp is not None and dp["l"] == 1 and not dp["p"]) else "inner"
+            if ok and gen_dispatch == "self":
+                # `Self::go::<Mode>` would dispatch on self again through Mode::invoke*: unbounded mutual recursion
+                ok = False
+                why += " — but %s dispatches on `self` through Mode::invoke*, so this forwarder re-enters itself" % target
             if not ok and f["name"] == b["name"] and all(x[0] == "arg" and x[1] == 1 and len(x) > 2 for x in a0) \
                     and any(x[:2] == ("arg", 2) for x in a1):
-                # wrapper around a stored parser/operator (e.g. pratt::Boxed): forwards the SAME mode-specific
-                # method to a field of self
-                ok = True
+                # wrapper around a stored parser/operator (e.g. pratt::Boxed): forwards the SAME mode-specific method to
+                # a field of self -- legitimate only if the generic method is itself nothing but a mode dispatch
+                ok = gen_dispatch is not None
+                if not ok:
+                    why += " — forwarding %s to a field bypasses what %s does in this combinator" % (b["name"], target)
         r.ob(ok)
         if not ok:
             r.violations.append(V("MODE-PAIR", b["uname"], "forwarder %s" % b["name"],
